@@ -1,3 +1,4 @@
+import TantivyModel.Proofs.SSTable.StoreLocate
 import TantivyModel.Proofs.SSTable.StoreFile
 import TantivyModel.Proofs.SSTable.SearchOrd
 import TantivyModel.Proofs.SSTable.ValueFile
@@ -873,6 +874,22 @@ theorem C15_store_get (gs : List GroupSpec) (k i : Nat) (g : GroupSpec) (hk : gs
 example : (openStore (storeBytes [⟨100, 5, 10, 3, ⟨0, 0, 90⟩, [⟨9, 90, 200⟩], 200⟩,
       ⟨100, 5, 10, 3, ⟨20, 200, 310⟩, [⟨29, 310, 400⟩, ⟨40, 400, 500⟩], 500⟩])).get (1 * Gen.STORE_BLOCK_LEN + 2)
     = some ⟨40, 400, 500⟩ := by decide
+
+/-- `BlockAddrStore::binary_search_ord` on the serialised store itself — store-block count taken
+from the metadata length, `block_len` parsed from each 36-byte record, first ordinals read through
+`get` from the packed bytes, the fast path on a store block's reference ordinal — returns the last
+block whose first ordinal is ≤ ord: the abstract search of `Dict.locateOrd`
+(`C15_locate_ord_dict`), for every store the writer model produces (all store blocks but the last
+full, fields fitting) with strictly increasing first ordinals -/
+theorem C15_store_locate_ord (gs : List GroupSpec) (hg : GoodStore gs) (ord : Nat)
+    (hs : (allOrds gs).Pairwise (· < ·)) (h0 : (allOrds gs).getD 0 0 ≤ ord) :
+    (openStore (storeBytes gs)).locateOrd ord
+      = ((allOrds gs).filter (fun x => decide (x ≤ ord))).length - 1 :=
+  store_locate_ord gs hg ord hs h0
+
+example : (openStore (storeBytes [⟨100, 5, 10, 3, ⟨0, 0, 90⟩, [⟨9, 90, 200⟩], 200⟩])).locateOrd 9 = 1 ∧
+    (openStore (storeBytes [⟨100, 5, 10, 3, ⟨0, 0, 90⟩, [⟨9, 90, 200⟩], 200⟩])).locateOrd 8 = 0 ∧
+    allOrds [⟨100, 5, 10, 3, ⟨0, 0, 90⟩, [⟨9, 90, 200⟩], 200⟩] = [0, 9] := by decide
 
 /-! ## insertion order (DESIGN §8, F6) -/
 
